@@ -17,6 +17,47 @@ class C10(C01):
     def scenario(self, rng, tier):
         return net_scenario(rng, tier, duplex_bias=True, tx_only_passes=True)
 
+    def enumerate(self, tier):
+        """EVERY interleaving prefix of bounded length over {A.process, A.process(tx only), B.process, B.process(tx only), deliver one frame
+        A->B, deliver one frame B->A, tick} for a small full-duplex exchange (both sides send a 2-Consecutive-Frame message at the same time),
+        blocksize in {0, 1} x prefix byte on/off, followed by regular rounds; every payload must arrive, no error, nothing left busy"""
+        import itertools
+        depth = 4 if tier == 'quick' else 6
+        moves = {
+            'pa': {'op': 'process', 'i': 0}, 'ta': {'op': 'process', 'i': 0, 'rx': False},
+            'pb': {'op': 'process', 'i': 1}, 'tb': {'op': 'process', 'i': 1, 'rx': False},
+            'dab': {'op': 'deliver', 'i': 0, 'j': 1, 'n': 1}, 'dba': {'op': 'deliver', 'i': 1, 'j': 0, 'n': 1},
+            'tick': {'op': 'tick', 'dt': 1000000},
+        }
+        names = sorted(moves)
+        addr_sets = [({'mode': 0, 'txid': 0x123, 'rxid': 0x456}, {'mode': 0, 'txid': 0x456, 'rxid': 0x123}),
+                     ({'mode': 3, 'txid': 0x123, 'rxid': 0x456, 'target_address': 0x11, 'source_address': 0x22},
+                      {'mode': 3, 'txid': 0x456, 'rxid': 0x123, 'target_address': 0x22, 'source_address': 0x11})]
+        cfgs = [(ad, bs) for ad in addr_sets for bs in (0, 1)]
+        if tier == 'quick':
+            cfgs = cfgs[:1] + cfgs[3:]
+        for (a, b), bs in cfgs:
+            for n in range(1, depth + 1):
+                for seq in itertools.product(names, repeat=n):
+                    ops = [{'op': 'layer', 'i': 0, 'addr': a, 'params': {'blocksize': bs}}, {'op': 'layer', 'i': 1, 'addr': b, 'params': {'blocksize': bs}},
+                           {'op': 'send', 'i': 0, 'id': 1, 'data': bytes(range(1, 18))}, {'op': 'send', 'i': 1, 'id': 2, 'data': bytes(range(101, 118))}]
+                    ops += [dict(moves[m]) for m in seq]
+                    for _ in range(12):
+                        ops.append({'op': 'deliver', 'i': 0, 'j': 1, 'n': 100000, 'keep': True})
+                        ops.append({'op': 'process', 'i': 1, 'keep': True})
+                        ops.append({'op': 'deliver', 'i': 1, 'j': 0, 'n': 100000, 'keep': True})
+                        ops.append({'op': 'process', 'i': 0, 'keep': True})
+                        ops.append({'op': 'tick', 'dt': 1000001, 'keep': True})
+                    yield {'ops': ops}
+
+    def nontrivial_key(self, sc, lines_in, impl_out):
+        k = C01.nontrivial_key(self, sc, lines_in, impl_out)
+        if k is not None and 'enumerated' in sc.get('tags', ()):
+            # an enumerated schedule is distinct by its interleaving prefix
+            sched = tuple((op['op'], op.get('i'), op.get('rx', True)) for op in sc['ops'] if not op.get('keep') and op['op'] in ('process', 'deliver', 'tick'))
+            return k + (sched,)
+        return k
+
     def judge(self, sc, lines_in, impl_out):
         out = judge_transfer(sc, lines_in, impl_out)
         # quiescence: at the end nothing is in progress
